@@ -186,7 +186,11 @@ CLAIMED['C10'] = dict(
 CLAIMED['C13'] = dict(
     text='Lean 4 theorems: recognising a mapping as an auto-recognised class is invariant under every '
          'permutation of its key/value pairs; the tag of a recognised container type does not depend '
-         'on the List/Sequence/MutableSequence or Dict/Mapping/MutableMapping spelling; '
+         'on the List/Sequence/MutableSequence or Dict/Mapping/MutableMapping spelling; two class '
+         'models / types that differ in those spellings only admit exactly the same nodes '
+         '(C13_kind_interchange_language, induction over the specification of the documented rules) '
+         'and a node is recognised as some type under the one iff under the other '
+         '(C13_kind_interchange_recognised); registering an unrelated class changes no recognition; '
          'bool_union_fix is recognised exactly when bool is and is dropped next to it. Styles are not '
          'in the model (no code path reads them). On the real code every generated case is re-run '
          'under key reordering, re-serialisation (block/flow/quoted/canonical/JSON, tags preserved), '
